@@ -125,6 +125,8 @@ def build_f1(d):
             e = A.Bin(op, lo[1], ro[1])
             stmts = lo[0] + ro[0] + [A.Print([e])]
             feat = {'construct': 'binop', 'op': op, 'lt': lt, 'rt': rt, 'form': form,
+                    'restype': V.arith_type(op, lt, rt) if lt != STRING else
+                    (STRING if op == '+' else INTEGER),
                     'lclass': value_class(lt, pyval(lt, lv)),
                     'rclass': value_class(rt, pyval(rt, rv)),
                     'key': f'{lv} {op} {rv}'}
@@ -185,7 +187,7 @@ def _builtin_menu(tier):
     for s in ['', 'a', 'A', 'ab', ' ', '~']:
         add('ASC', 'lit', B('ASC', S(s)))
     for n in [0, 1, 127, 128, 200, 255]:
-        add('ASC', 'chr%d' % n, B('ASC', CH(n)))
+        add('ASC', 'chr-high' if n >= 128 else 'chr-low', B('ASC', CH(n)))
     # CHR$
     for n in [65, 32, 126, 255, 128]:
         add('CHR$', 'ok', CH(n))
@@ -200,14 +202,15 @@ def _builtin_menu(tier):
             add('INSTR', '2', B('INSTR', S(s), S(t)))
     for st in ['-1', '0', '1', '2', '4', '6', '7', '8', '2.5', '1.5', '3&', '6#']:
         for t in ['', 'bc', 'a']:
-            add('INSTR', '3', B('INSTR', N(st), S('abcabc'), S(t)))
+            add('INSTR', '3 start=%s needle=%s' % (st, 'empty' if t == '' else 'nonempty'),
+                B('INSTR', N(st), S('abcabc'), S(t)))
     # LCASE$ / UCASE$
     for fn in ('LCASE$', 'UCASE$'):
         for s in ['aBc1!', '', 'XYZ', 'xyz']:
             add(fn, 'ascii', B(fn, S(s)))
         for n in [128, 135, 154, 129, 165, 164]:
             add(fn, 'high', B(fn, A.Bin('+', CH(n), S('xY'))))
-            add(fn, 'high', B('ASC', B(fn, CH(n))))
+            add(fn, 'high', A.Bin('=', B(fn, CH(n)), CH(n)))
     # LEFT$ / RIGHT$
     for fn in ('LEFT$', 'RIGHT$'):
         for s in ['abc', '']:
